@@ -3,6 +3,7 @@ Props/C22 — CSV/DSV formatting reads back through DSV input.
 Property theorems only; lemmas live in Proof/DsvCsv.lean.
 -/
 import SuccinctlyVerif.Proof.DsvCsv
+import SuccinctlyVerif.Proof.DsvNavModel
 namespace SV.Props.C22
 open SV SV.Dsv
 
@@ -17,32 +18,38 @@ theorem fields_of_formatted (d : Byte) (hd : d ≠ QUOTE) (xs : List (List Byte)
     fieldsOf d QUOTE (formatDsv d xs) = xs.map quoteField :=
   DsvCsvP.fields_of_join d hd xs hx
 
-/-- **C22 over the splitting spec** (`_partial`: the reader here is the quote-aware splitting
-*specification* of C21 followed by `strip_quotes_and_decode`; lifting it to the `DsvRows`/`DsvFields`
-cursor model needs C21's `rows_eq`, which is not proved yet — the driver cross-checks the cursor
-model against this spec on every request).  For every non-empty array of strings and every
-admissible delimiter, the line printed by `-r '@dsv(d)'` (`@csv` for `,`) reads back as exactly
-that one array. -/
-theorem csv_round_trip_partial (d : Byte) (hd : admissible d = true) (xs : List (List Byte)) (hx : 1 ≤ xs.length) :
-    readDsvSpec d (printedLine d xs) = [xs] := by
-  have h : d ≠ QUOTE ∧ d ≠ LF := by
-    simp only [admissible, Bool.and_eq_true, bne_iff_ne, ne_eq] at hd
-    exact ⟨hd.1.1.2, hd.1.2⟩
+/-- The `--input-dsv` reader over the cursor model (`DsvRows`/`DsvFields` + rank/select, C21) reads
+exactly what the quote-aware splitting spec reads (C21 `fields_eq`). -/
+theorem readDsv_eq_spec (d : Byte) (text : List Byte) : readDsv d text = readDsvSpec d text := by
+  unfold readDsv readDsvSpec
+  rw [DsvNavM.rows_eq_spec]
+
+theorem admissible_ne (d : Byte) (hd : admissible d = true) : d ≠ QUOTE ∧ d ≠ LF := by
+  simp only [admissible, Bool.and_eq_true, bne_iff_ne, ne_eq] at hd
+  exact ⟨hd.1.1.2, hd.1.2⟩
+
+/-- **C22, csv_round_trip.** For every non-empty array of strings and every admissible delimiter,
+the line printed by `-r '@dsv(d)'` (`@csv` for `,`), read back with `--input-dsv d` — the real
+reader: DSV index, `DsvRows`/`DsvFields` iteration, `strip_quotes_and_decode` — yields exactly that
+one array of strings. -/
+theorem csv_round_trip (d : Byte) (hd : admissible d = true) (xs : List (List Byte)) (hx : 1 ≤ xs.length) :
+    readDsv d (printedLine d xs) = [xs] := by
+  have h := admissible_ne d hd
+  rw [readDsv_eq_spec]
   exact DsvCsvP.readSpec_printed d h.1 h.2 xs (by intro e; subst e; simp at hx)
 
 /-- The same without the final newline (`decodeRow d (format d xs) = xs`): the last field is
 quoted, hence non-empty, so the unterminated last record is read completely. -/
-theorem csv_round_trip_unterminated_partial (d : Byte) (hd : admissible d = true) (xs : List (List Byte))
-    (hx : 1 ≤ xs.length) : readDsvSpec d (formatDsv d xs) = [xs] := by
-  have h : d ≠ QUOTE ∧ d ≠ LF := by
-    simp only [admissible, Bool.and_eq_true, bne_iff_ne, ne_eq] at hd
-    exact ⟨hd.1.1.2, hd.1.2⟩
+theorem csv_round_trip_unterminated (d : Byte) (hd : admissible d = true) (xs : List (List Byte))
+    (hx : 1 ≤ xs.length) : readDsv d (formatDsv d xs) = [xs] := by
+  have h := admissible_ne d hd
+  rw [readDsv_eq_spec]
   exact DsvCsvP.readSpec_unterminated d h.1 h.2 xs (by intro e; subst e; simp at hx)
 
 /-- `@csv` is the comma instance. -/
-theorem csv_comma_round_trip_partial (xs : List (List Byte)) (hx : 1 ≤ xs.length) :
-    readDsvSpec COMMA (formatCsv xs ++ [LF]) = [xs] :=
-  csv_round_trip_partial COMMA (by decide) xs hx
+theorem csv_comma_round_trip (xs : List (List Byte)) (hx : 1 ≤ xs.length) :
+    readDsv COMMA (formatCsv xs ++ [LF]) = [xs] :=
+  csv_round_trip COMMA (by decide) xs hx
 
 /-! Non-vacuity: an admissible delimiter, a concrete array with a quote, a delimiter, a newline and
 an empty string — through the *cursor model* of the code (`readDsv`), by evaluation. -/
@@ -51,6 +58,6 @@ example : readDsv COMMA (printedLine COMMA [[0x61#8, 0x22#8], [0x2c#8, 0x0a#8], 
     = [[[0x61#8, 0x22#8], [0x2c#8, 0x0a#8], []]] := by decide +kernel
 /-- The hypothesis `1 ≤ |xs|` is needed: the empty array prints an empty line, which reads back as
 one row with one empty field. -/
-example : readDsvSpec COMMA (printedLine COMMA []) = [[[]]] := by decide
+example : readDsv COMMA (printedLine COMMA []) = [[[]]] := by rw [readDsv_eq_spec]; decide
 
 end SV.Props.C22
